@@ -359,6 +359,46 @@ def _chunks_dec(res, arg, tier):
     res.sample({'kind': 'chunks-dec', 'text': text, 'encoding': enc, 'mode': case['mode'], 'schedule': [1, 2, len(data) - 3] if len(data) > 3 else [len(data)]})
 
 
+RAW_NAMES = ['utf-16', 'ascii', 'utf-8', 'iso-8859-1']
+
+
+def _chunks_dec_raw(res, arg, tier):
+    """bytes that were NOT produced by the css encoder: the @charset rule names another encoding than the one the bytes are in
+    (a stale name); every chunking must still give the one-shot result, with the name rewritten to the encoding used"""
+    name, enc, given, force = arg
+    if ref.norm(name) == ref.norm(enc):
+        return
+    if (given is None or not force) and enc in ASCII_COMPAT:
+        return  # auto-detection would follow the (wrong) name: decoding garbage is nobody's property
+    text = '@charset "%s";a\u00e9{}' % name
+    if not representable(text, enc):
+        text = '@charset "%s";a{}' % name
+    data = text.encode(enc)
+    try:
+        want = ref.decode(data, given, force)
+    except (UnicodeError, LookupError):
+        return
+    case = {'kind': 'chunks-dec-raw', 'text': text, 'encoding': enc, 'name': name, 'mode': ['auto' if given is None else 'given', force], 'bytes': data.hex()}
+    res.evaluations += 1
+    res.clauses['C07.chunks.decoder'] += 1
+
+    def make():
+        return cc.IncrementalDecoder(encoding=given, force=force)
+
+    def feed(obj, a, b, final):
+        return obj.decode(data[a:b], final)
+
+    # the one-shot codec itself must agree with the reference first
+    try:
+        one = cc.decode(data, encoding=given, force=force)[0]
+        if one != want:
+            res.violation('C07.roundtrip', f'one-shot-differs-from-reference|stale-name|{_tclass(text)}', case, want, one)
+    except Exception as e:
+        res.violation('C07.roundtrip', guard.crash_site(e) + '|stale-name', case, want, repr(e))
+    _bfs(res, 'C07.chunks.decoder', len(data), make, feed, _dec_key, want, case, True)
+    res.outcomes.add(h64(('dec-raw', name, enc, given, force)))
+
+
 def _chunks_enc(res, arg, tier):
     ti, enc, given = arg
     text = _concrete(_texts(tier)[ti], enc)
@@ -503,6 +543,10 @@ def plan(tier):
                 shards.append(('chunks-enc', [ti, enc, given]))
                 shards.append(('stream-read', [ti, enc, given]))
                 shards.append(('stream-write', [ti, enc, given]))
+    for name in RAW_NAMES:
+        for enc in ENCODINGS:
+            for given, force in ((enc, True), (enc, False), (None, True)):
+                shards.append(('chunks-dec-raw', [name, enc, given, force]))
     return shards
 
 
@@ -519,6 +563,8 @@ def run_shard(shard, tier, seed):
             _roundtrip(res, arg, tier)
         elif kind == 'chunks-dec':
             _chunks_dec(res, arg, tier)
+        elif kind == 'chunks-dec-raw':
+            _chunks_dec_raw(res, arg, tier)
         elif kind == 'chunks-enc':
             _chunks_enc(res, arg, tier)
         elif kind == 'stream-read':
@@ -536,6 +582,9 @@ def replay(case, tier, seed):
         _detect_one(res, bytes.fromhex(case['bytes']))
     elif k in ('detect_unicode', 'fixencoding'):
         _unicode_tables(res)
+    elif k == 'chunks-dec-raw':
+        given = None if case['mode'][0] == 'auto' else case['encoding']
+        _chunks_dec_raw(res, [case['name'], case['encoding'], given, case['mode'][1]], 'thorough')
     else:
         # re-run the whole (text, encoding, mode) search the case belongs to: small, and the witness is its first violation
         texts = _texts('thorough')
